@@ -22,6 +22,21 @@ def _noreturn_info(trace_path, cid):
     return None
 
 
+def _segment_has_stall(trace_path, cid):
+    """TRUE when the execution of case cid recorded in the trace ended on a scheduler stall."""
+    try:
+        inside = False
+        with open(trace_path) as f:
+            for ln in f:
+                if ln.startswith('{"e":"Reset"'):
+                    inside = ('"case":"%s"' % cid) in ln
+                elif inside and "stall" in ln and ('"e":"Hang"' in ln or '"e":"NoReturn"' in ln):
+                    return True
+    except OSError:
+        pass
+    return False
+
+
 class Check:
     """One property check run.  Subclass-free: a plan is a dict, see checks_*.py."""
 
@@ -114,7 +129,19 @@ class Check:
         # the case is run alone (a loaded machine must not raise an alarm), a sanitizer report or a
         # crash is reported as is
         fixed = []
+        stall_checked = {}
         for tp, conj, line, cid in failures:
+            # a "stall" verdict of the controlled scheduler (a granted thread neither parked nor blocked
+            # within the wall-clock allowance) depends on the machine's load: reported only if the case
+            # stalls again when run alone
+            if cid in by_id and _segment_has_stall(tp, cid):
+                if cid not in stall_checked:
+                    stall_checked[cid] = self._stall_repeats(exe, by_id[cid], timeout_ms, env)
+                    if not stall_checked[cid]:
+                        self.ev.cov["unconfirmed_stalls"] = self.ev.cov.get("unconfirmed_stalls", 0) + 1
+                        log("[trace] scheduler stall of case %s did not repeat when run alone: not reported" % cid)
+                if not stall_checked[cid]:
+                    continue
             if conj.startswith("NoReturn") or conj.startswith("Rejected"):
                 info = _noreturn_info(tp, cid)
                 if info is not None:
@@ -140,6 +167,20 @@ class Check:
                 continue
             seen.add((cid, conj))
             self.report(conjunct=conj, case_id=cid, case=by_id.get(cid), trace=tp, line=line)
+
+    def _stall_repeats(self, exe, case, timeout_ms, env):
+        import subprocess
+        cp = os.path.join(self.workdir, "retry-stall-case.ndjson")
+        tp = os.path.join(self.workdir, "retry-stall-trace.ndjson")
+        vlib.write_cases([case], cp)
+        e = dict(os.environ)
+        if env:
+            e.update(env)
+        subprocess.run([exe, "--cases", cp, "--out", tp, "--timeout", str(2 * timeout_ms)], capture_output=True, env=e)
+        try:
+            return "stall" in open(tp).read()
+        except OSError:
+            return True
 
     def _timeout_repeats(self, exe, case, timeout_ms, env):
         import subprocess
